@@ -269,6 +269,61 @@ def _chain_rules(c, R, rid, gsm, spec):
             break
     if not ok_chain:
         return
+    # ---- the loop body may continue the selection (`if !cond { continue }`, `let Some(x) = .. else { continue }`): the same
+    # conditions written as statements instead of adapters.  Roles of the loop pattern first, then of locals introduced in the body.
+    env = {}
+    if not _bind_roles(loop["pat"], roles, env):
+        R.unrecognised(rid, "chain:for-pattern", "loop pattern does not destructure (%s)" % roles, loop["sp"])
+        return
+    for n in H.walk(loop["body"], into_closures=False):
+        pat = init = None
+        if n.get("k") == "let" and "init" in n:
+            pat, init = n["pat"], n["init"]
+        elif n.get("k") == "letexpr":
+            pat, init = n["pat"], n["init"]
+        if pat is None:
+            continue
+        binds = H.pat_bindings(pat)
+        if len(binds) != 1 or binds[0][0] in env:
+            continue
+        ad, root = _chain(H.peel(init, tries=True))
+        role = None
+        gets = [m for m in ad if m["name"] == "get" and len(m["args"]) == 1 and H.place_root(m["recv"])[1][-2:] == ["reference", "method_references"]]
+        rr = H.recv_root(init)
+        if gets:
+            one["lookup"] = (True, _role(gets[0]["args"][0], env), gets[0]["sp"])
+            role = "callee-set" if one["lookup"][1] == "synthetic" else None
+            if any(m["name"] in ("and_then", "map", "filter") for m in ad):
+                role = None       # mixed forms are not followed
+        elif rr and env.get(rr[0]) == "callee-set" and (any(m["name"] in ("next", "first", "get_index", "last", "pop") for m in ad)
+                                                       or any(x.get("k") == "index" for x in H.walk(init))):
+            role = "callee"
+        elif rr and rr[0] in env and all(m["name"] in ("clone", "as_ref", "borrow", "to_owned") for m in ad) and H.peel(root).get("k") == "path":
+            role = env[rr[0]]
+        if role:
+            env[binds[0][0]] = role
+    b2s_ins = [x for x in H.walk(loop["body"]) if x.get("k") == "mcall" and x["name"] == "insert" and H.local_of(x["recv"])
+               and result_local.get(H.local_of(x["recv"])[0]) == "bridge_to_specialized"]
+    if len(b2s_ins) == 1:
+        for kind, cn, extra in H.path_conditions(loop["body"], b2s_ins[0]):
+            if kind in ("if", "after-exit"):
+                lens = [x for x in H.walk(cn) if x.get("k") == "mcall" and x["name"] == "len" and H.recv_root(x["recv"])
+                        and env.get(H.recv_root(x["recv"])[0]) == "callee-set"]
+                if lens:
+                    table = {}
+                    for size in (0, 1, 2, 3):
+                        r = T.Evaluator(calls={"len": (lambda args, size=size: ("i", size))}).ev(cn, {})
+                        table[size] = ("kept" if r[1] == bool(extra) else "dropped") if r[0] == "b" else "?" + T.show(r)[:60]
+                    one["len"].append((table, cn["sp"]))
+                else:
+                    f0 = B.formula(cn, atom_factory(env))
+                    filters.append(f0 if extra else ("not", f0))
+            elif kind in ("letelse", "iflet"):
+                v0 = H.pat_variant(cn["pat"])
+                if not (v0 and v0[1] == "Some" and (extra is True)):
+                    R.unrecognised(rid, "chain:loop-body", "selection by a pattern other than `Some(..)`: " + H.render_pat(cn["pat"]), cn.get("sp"))
+            else:
+                R.unrecognised(rid, "chain:loop-body", "the pair is recorded under a condition the rule does not understand (%s)" % kind, b2s_ins[0]["sp"])
     # ---- keep predicate: truth table over (synthetic, bridge flag, potential)
     f = None
     for x in filters:
@@ -306,12 +361,6 @@ def _chain_rules(c, R, rid, gsm, spec):
     R.inst(rid, "index:callee-collection-is-a-set", bool(ty) and "Set<" in ty[0], sp=adt["sp"] if adt else None, got=ty,
            detail="`exactly one distinct method`: repeated calls of the same method count once")
     # ---- roles reach the result maps
-    env = {}
-    okp = _bind_roles(loop["pat"], roles, env)
-    if not okp:
-        R.unrecognised(rid, "chain:for-pattern", "loop pattern does not destructure (%s)" % roles, loop["sp"])
-        return
-
     def role_deep(e):
         """role of a value, following `.clone()` and a local initialised from alternatives of locals."""
         rr = H.recv_root(e)
